@@ -570,7 +570,7 @@ pub fn replay_c11(v: &Value) -> Vec<Failure> {
 }
 
 pub fn run_c11(ctx: &Ctx) -> ! {
-    let n = ctx.tier.pick(1_200_000u64, 40_000_000);
+    let n = ctx.tier.pick(1_200_000u64, 120_000_000);
     // the reference renderer itself is validated against the pinned strings first
     let mut pre = Stats::default();
     let mut pinned: Vec<(String, String)> = PINNED.iter().map(|(a, b)| (a.to_string(), b.to_string())).collect();
